@@ -182,12 +182,19 @@ pub fn run_c09(ctx: &Ctx, sink: &mut Sink) {
                 _ => {}
             }
             toks.push(exec);
+            // a second action of the other form behind it: `-exec … ; -exec … {} +` (each ends at its own terminator)
+            let then_plus = rng.chance(1, 6);
+            if then_plus {
+                toks.push(format!("execm:7:{}:1:{}:{}", rng.below(2), hex(&rec), hexjoin(&[b"P2".to_vec()])));
+            }
             toks.push(format!("lit:{}", hex(b"T\n")));
             toks.push("o".into());
             toks.push(format!("lit:{}", hex(b"F\n")));
             let n_script = rng.below(12);
             // 1000+N: the command kills itself with signal N (no exit code at all: not a success)
-            let script: Vec<u32> = (0..n_script).map(|_| *rng.pick(&[0u32, 0, 1, 2, 255, 1009, 1015])).collect();
+            // (with a `+` action behind: every command succeeds - its runs come at other moments than the `;` runs,
+            // so a script indexed by run number would not mean the same to the reference)
+            let script: Vec<u32> = if then_plus { vec![] } else { (0..n_script).map(|_| *rng.pick(&[0u32, 0, 1, 2, 255, 1009, 1015])).collect() };
             let roots = pick_exec_roots(&mut rng, &sc);
             let roots: Vec<(Vec<u8>, String)> = roots.into_iter().filter(|(_, w)| !w.ends_with("=missing")).collect();
             if roots.is_empty() { continue; }
@@ -356,6 +363,13 @@ pub fn run_c08(ctx: &Ctx, sink: &mut Sink) {
                 toks.push(format!("execm:0:{}:{}:{}:{}", dir as u8, ok as u8, hex(&cmd), hexjoin(&f1)));
                 if rng.chance(1, 3) { toks.push("o".into()); toks.push("true".into()); toks.push("comma".into()); }
                 toks.push(format!("execm:1:{}:1:{}:{}", dir2 as u8, hex(&rec), hexjoin(&f2)));
+            } else if rng.chance(1, 5) {
+                // the action inside a negated group: `! ( -name N -o -exec … {} + )` - the end of the walk must
+                // reach it there too
+                let nm: Vec<u8> = rng.pick(&sc.names).clone().into_iter().filter(|b| b.is_ascii()).collect();
+                toks.extend(["bang".into(), "lp".into(), crate::fexpr::name_tok(&nm), "o".into(), exec, "rp".into()]);
+            } else if rng.chance(1, 8) {
+                toks.extend(["bang".into(), exec]);
             } else {
                 toks.push(exec);
             }
